@@ -79,3 +79,15 @@ func VerifBlosum62Matrix() [][]float64 { return verifCopyMat(blosum62_subst_matr
 
 func VerifStdAminoAcids() []uint8  { return append([]uint8{}, stdaminoacid...) }
 func VerifStdNucleotides() []uint8 { return append([]uint8{}, stdnucleotides...) }
+
+// VerifConservationGroups returns copies of the strong and weak amino acid
+// groups used by SiteConservation.
+func VerifConservationGroups() (strong, weak [][]uint8) {
+	for _, g := range strongGroups {
+		strong = append(strong, append([]uint8{}, g...))
+	}
+	for _, g := range weakGroups {
+		weak = append(weak, append([]uint8{}, g...))
+	}
+	return
+}
